@@ -286,6 +286,22 @@ def _session_reads(ctx, res):
                 res.violations.append(dict(what='C02: broker PUBLISH packets in the standard layout are not decoded to the standard\'s field values '
                                            '(delivered %s, expected %s; acknowledgements %s, expected %s)' % (str(got)[:300], str(want)[:300], acks, wacks),
                                            signature='C02 session read', scenario=lines))
+    # the other broker packet with version-dependent flag bits: PUBREL, whose first byte is 0x62 under 3.1.1 and may carry DUP (0x6A) when
+    # it is sent again under 3.1 -- both are "the prescribed format" for their version and must complete the exchange
+    for ver in ('311', '31'):
+        for first in ([0x62] + ([0x6A] if ver == '31' else [])):
+            again = 0x6A if ver == '31' else 0x62
+            pre = _prefix(3, ver, 'connected')
+            lines = pre + ['recv 0 ' + hx(publish_pkt('q/\u00f1', b'z', 2, mid=0x1234)), 'recv 0 ' + hx(ack(first, 0x1234)), 'recv 0 ' + hx(ack(again, 0x1234))]
+            trace = realworld.run_scenario(lines)
+            obs = [o for step in trace[len(pre):] for o in step[1]]
+            got = [o for o in obs if o.startswith('pub ')]
+            acks = [o.split()[2] for o in obs if o.startswith('w ')]
+            n += 3
+            if len(got) != 1 or acks != ['50021234', '70021234', '70021234'] or any(o.startswith('abort') for o in obs):
+                res.violations.append(dict(what='C02: a PUBREL in the format prescribed for version %s (first byte %#x, then %#x) does not complete the exchange '
+                                           '(deliveries %s, written %s, aborted %s)' % (ver, first, again, got, acks, any(o.startswith('abort') for o in obs)),
+                                           signature='C02 session read', scenario=lines))
     res.extra['session_reads_checked'] = n
 
 
